@@ -29,6 +29,16 @@ var VerifDir = func() string {
 	return "/verif"
 }()
 
+// OutDir is where evidence, replay files and work files of a run are written (default:
+// VerifDir). Runs against seeded changes set VERIF_OUT_DIR so that the committed evidence
+// is written only by runs against /repo's real tree.
+var OutDir = func() string {
+	if d := os.Getenv("VERIF_OUT_DIR"); d != "" {
+		return d
+	}
+	return VerifDir
+}()
+
 // Verdicts
 const (
 	Held         = "held"
@@ -486,13 +496,13 @@ func DriverMain(propID, tier string, seed uint64, only []int) int {
 	}
 	agg := &Agg{Prop: p, Tier: tier, Seed: seed, FPs: map[string]bool{}, Counters: map[string]int64{}, Notes: map[string]interface{}{}}
 	if only == nil {
-		if old, _ := filepath.Glob(filepath.Join(VerifDir, "replays", propID+"-*.json")); old != nil {
+		if old, _ := filepath.Glob(filepath.Join(OutDir, "replays", propID+"-*.json")); old != nil {
 			for _, f := range old {
 				os.Remove(f)
 			}
 		}
 	}
-	workDir := filepath.Join(VerifDir, "work", propID)
+	workDir := filepath.Join(OutDir, "work", propID)
 	os.RemoveAll(workDir)
 	os.MkdirAll(workDir, 0o755)
 	raceDir := ""
@@ -714,8 +724,8 @@ func matchKnown(fs []Finding, prop, sig string) *Finding {
 func finish(a *Agg, start time.Time, partial bool) int {
 	p := a.Prop
 	fs := LoadFindings()
-	os.MkdirAll(filepath.Join(VerifDir, "replays"), 0o755)
-	os.MkdirAll(filepath.Join(VerifDir, "evidence"), 0o755)
+	os.MkdirAll(filepath.Join(OutDir, "replays"), 0o755)
+	os.MkdirAll(filepath.Join(OutDir, "evidence"), 0o755)
 	sort.Slice(a.Violations, func(i, j int) bool { return a.Violations[i].Case < a.Violations[j].Case })
 	unknown := 0
 	knownSeen := map[string]int{}
@@ -727,9 +737,9 @@ func finish(a *Agg, start time.Time, partial bool) int {
 			continue
 		}
 		unknown++
-		path := filepath.Join(VerifDir, "replays", fmt.Sprintf("%s-s%d-c%d.json", p.ID, a.Seed, v.Case))
+		path := filepath.Join(OutDir, "replays", fmt.Sprintf("%s-s%d-c%d.json", p.ID, a.Seed, v.Case))
 		if v.Case < 0 {
-			path = filepath.Join(VerifDir, "replays", fmt.Sprintf("%s-s%d-run-%s.json", p.ID, a.Seed, Hash(v.Sig)))
+			path = filepath.Join(OutDir, "replays", fmt.Sprintf("%s-s%d-run-%s.json", p.ID, a.Seed, Hash(v.Sig)))
 		}
 		rep := map[string]interface{}{
 			"property": p.ID, "tier": a.Tier, "seed": a.Seed, "case": v.Case,
@@ -835,7 +845,7 @@ func finish(a *Agg, start time.Time, partial bool) int {
 	}
 	if !partial {
 		b, _ := json.MarshalIndent(ev, "", " ")
-		os.WriteFile(filepath.Join(VerifDir, "evidence", p.ID+".json"), b, 0o644)
+		os.WriteFile(filepath.Join(OutDir, "evidence", p.ID+".json"), b, 0o644)
 	}
 	fmt.Printf("%s tier=%s seed=%d: evaluations=%d distinct_nontrivial=%d violations=%d known=%d inconclusive=%d wall=%.1fs\n",
 		p.ID, a.Tier, a.Seed, a.Evaluations, distinct, unknown, len(a.Violations)-unknown, len(a.Inconclusive), time.Since(start).Seconds())
